@@ -320,6 +320,10 @@ def oracle_all(case, res):
             continue
         m = script_failure(case, route, x)
         if m:
+            last = st[-1]
+            if "err" not in last and last.get("edges") and len({tuple(e) for e in last["edges"]}) != len(last["edges"]):
+                # a consequence of the duplicated declared edge (the edge-id table keeps one id per key)
+                m = ("edge-list/duplicate-declared", m[1] + "  [the edge list holds a duplicated declared edge]")
             fails.append(m)
             continue
         # container independence: every raw route (and from_arrays when it accepts the data) gives the very same
